@@ -52,20 +52,30 @@ VARIABLES
 
 vars == <<top, win, tags, wire, npub, faults, cfg, pc, hub, hres, buf, sub, pend, out, step>>
 
-Positioned == cfg.kind \in {"pos", "rec"}
+Positioned == cfg.kind \in {"pos", "rec", "cache"}
 Buffering  == Positioned /\ pc \in {"g1", "g2", "g3"}
 Filtered(tag) == cfg.filt /\ tag = "drop"
 
+\* filt: the subscription has a tags filter that withholds publications tagged "drop"; sf: that filter is the
+\* server-side one (SubscribeOptions.ServerTagsFilter) rather than the client's (same semantics, other code path)
+Filt == {[filt |-> FALSE, sf |-> FALSE], [filt |-> TRUE, sf |-> FALSE], [filt |-> TRUE, sf |-> TRUE]}
+NoSince == [off |-> 0, ep |-> ""]
 Cfgs ==
-  {[kind |-> k, filt |-> f, since |-> [off |-> 0, ep |-> ""]] : k \in Kinds \ {"rec"}, f \in BOOLEAN}
+  {[kind |-> k, filt |-> f.filt, sf |-> f.sf, auto |-> FALSE, since |-> NoSince] : k \in Kinds \ {"rec", "cache"}, f \in Filt}
   \cup (IF "rec" \in Kinds
-          THEN [kind : {"rec"}, filt : BOOLEAN, since : [off : 0..MaxPub, ep : {"", Ep, "e2"}]]
+          THEN {[kind |-> "rec", filt |-> f.filt, sf |-> f.sf, auto |-> FALSE, since |-> [off |-> o, ep |-> e]] :
+                  f \in Filt, o \in 0..MaxPub, e \in {"", Ep, "e2"}}
+          ELSE {})
+  \cup (IF "cache" \in Kinds
+          THEN {[kind |-> "cache", filt |-> f.filt, sf |-> f.sf, auto |-> FALSE, since |-> [off |-> o, ep |-> e]] :
+                  f \in Filt, o \in 0..MaxPub, e \in {"", Ep, "e2"}}
+               \cup {[kind |-> "cache", filt |-> f.filt, sf |-> f.sf, auto |-> TRUE, since |-> NoSince] : f \in Filt}
           ELSE {})
 
 Init ==
   /\ top = 0 /\ win = <<>> /\ tags = <<>> /\ wire = {} /\ npub = 0 /\ faults = 0
   /\ cfg \in Cfgs
-  /\ pc = "idle" /\ hub = FALSE /\ hres = [pubs |-> <<>>, top |-> 0] /\ buf = <<>>
+  /\ pc = "idle" /\ hub = FALSE /\ hres = [pubs |-> <<>>, top |-> 0, latest |-> 0, vis |-> 0, win |-> <<>>] /\ buf = <<>>
   /\ sub = [st |-> "none", pos |-> 0, ep |-> ""]
   /\ pend = 0 /\ out = <<>>
   /\ step = [act |-> "Init"]
@@ -170,10 +180,21 @@ SubToHistory ==                              \* released -> parked before Broker
 After(w, o) == SelectSeq(w, LAMBDA x : x.off > o)
 Limited(s)  == IF RecLimit > 0 /\ Len(s) > RecLimit THEN SubSeq(s, 1, RecLimit) ELSE s
 
+\* recoverCache: without filters History(limit 1, reverse); with a filter a reverse scan (bounded by the recovery
+\* limit) for the newest publication passing it; nothing visible => (nil, nil)
+Scan(w)   == IF RecLimit > 0 /\ Len(w) > RecLimit THEN SubSeq(w, Len(w) - RecLimit + 1, Len(w)) ELSE w
+Newest(w) == IF w = <<>> THEN 0 ELSE w[Len(w)].off
+NewestVisible(w) == LET v == SelectSeq(w, LAMBDA x : ~Filtered(x.tag)) IN Newest(v)
+
 SubHistRead ==                               \* the broker's History call happens -> parked after it
   /\ pc = "g2"
   /\ pc' = "g3"
-  /\ hres' = [pubs |-> IF cfg.kind = "rec" THEN Limited(After(win, cfg.since.off)) ELSE <<>>, top |-> top]
+  /\ hres' = [pubs   |-> IF cfg.kind = "rec" THEN Limited(After(win, cfg.since.off)) ELSE <<>>,
+              top    |-> top,
+              vis    |-> IF cfg.kind = "cache" THEN (IF cfg.filt THEN NewestVisible(Scan(win)) ELSE Newest(win)) ELSE 0,
+              \* the newest publication in history, visible or not (C03: `recovered` does not depend on the filter)
+              latest |-> IF cfg.kind = "cache" THEN Newest(win) ELSE 0,
+              win    |-> win]
   /\ UNCHANGED <<top, win, tags, wire, npub, faults, cfg, hub, buf, sub, pend, out>>
   /\ step' = [act |-> "SubHistRead"]
 
@@ -192,16 +213,26 @@ SubFinish ==
             /\ sub' = [st |-> "live", pos |-> 0, ep |-> ""]
             /\ pc' = "done" /\ UNCHANGED <<hub, buf, pend>>
        ELSE
-         LET recd   == Recovered
-             recl   == IF recd THEN [i \in 1..Len(hres.pubs) |->
+         LET isCache == cfg.kind = "cache"
+             \* isCacheRecovered
+             same   == cfg.since.off > 0 /\ cfg.since.off = hres.top /\ cfg.since.ep = Ep
+             crec   == IF hres.latest = 0 THEN same ELSE hres.latest = hres.top
+             cpubs  == IF hres.latest # 0 /\ hres.latest = hres.top /\ ~same /\ hres.vis # 0
+                         THEN <<[off |-> hres.vis, f |-> FALSE, id |-> 0]>> ELSE <<>>
+             recd   == IF isCache THEN crec ELSE Recovered
+             recl   == IF isCache THEN cpubs
+                       ELSE IF recd THEN [i \in 1..Len(hres.pubs) |->
                                        [off |-> hres.pubs[i].off, f |-> Filtered(hres.pubs[i].tag), id |-> 0]]
                                ELSE <<>>
              \* buffered publications the client already has (offset <= requested offset) are not re-delivered
-             bufl   == IF recd THEN SelectSeq(buf, LAMBDA x : x.off > cfg.since.off) ELSE buf
+             bufl   == IF recd /\ ~isCache THEN SelectSeq(buf, LAMBDA x : x.off > cfg.since.off)
+                       \* cache mode: a buffered publication not newer than the history top is stale
+                       ELSE IF recd /\ isCache THEN SelectSeq(buf, LAMBDA x : x.off > hres.top)
+                       ELSE buf
              \* a recovered subscribe must account for every offset from the requested one up to the newest seen
              \* (recovered, buffered or a filtered placeholder of either); otherwise a publication was lost
              offs   == {recl[i].off : i \in 1..Len(recl)} \cup {bufl[i].off : i \in 1..Len(bufl)}
-             hole   == recd /\ bufl # <<>> /\
+             hole   == recd /\ ~isCache /\ bufl # <<>> /\
                          \E o \in (cfg.since.off + 1)..(CHOOSE x \in offs : \A y \in offs : y <= x) : o \notin offs
              m0     == MergeImpl(recl, [i \in 1..Len(bufl) |-> [off |-> bufl[i].off, f |-> bufl[i].f, id |-> bufl[i].id]])
              m      == IF hole THEN [m0 EXCEPT !.ok = FALSE] ELSE m0
@@ -217,7 +248,10 @@ SubFinish ==
               ELSE /\ out' = Append(out, [t |-> "reply",
                                          off |-> IF recd THEN cfg.since.off ELSE latest,
                                          recovered |-> recd,
-                                         pubs |-> IF recd THEN m.pubs ELSE <<>>])
+                                         pubs |-> IF ~recd THEN <<>>
+                                                  \* cache mode: the client wants the last publication only
+                                                  ELSE IF isCache /\ Len(m.pubs) > 1 THEN <<m.pubs[Len(m.pubs)]>>
+                                                  ELSE m.pubs])
                    /\ sub' = [st |-> "live", pos |-> latest, ep |-> Ep]
                    /\ pc' = "done" /\ buf' = <<>>
                    /\ UNCHANGED <<hub, pend>>
@@ -253,10 +287,10 @@ Seen == IF ReplyIdx = 0 THEN <<>>
 SubscribePos == IF ReplyIdx = 0 THEN 0 ELSE out[ReplyIdx].off
 
 C01_Ordered  == Positioned => \A i \in 1..(Len(Seen) - 1) : Seen[i] < Seen[i + 1]
-C01_GapFree  == (Positioned /\ Seen # <<>>) =>
+C01_GapFree  == (Positioned /\ cfg.kind # "cache" /\ Seen # <<>>) =>
                   \A o \in (SubscribePos + 1)..Seen[Len(Seen)] :
                      (\E i \in 1..Len(Seen) : Seen[i] = o) \/ (o <= Len(tags) /\ Filtered(tags[o]))
-C01_AfterPos == Positioned => \A i \in 1..Len(Seen) : Seen[i] > SubscribePos
+C01_AfterPos == (Positioned /\ cfg.kind # "cache") => \A i \in 1..Len(Seen) : Seen[i] > SubscribePos
 C01 == C01_Ordered /\ C01_GapFree /\ C01_AfterPos
 
 \* C10: publication pushes only between the subscribe reply and the end of the subscription
@@ -270,7 +304,7 @@ C16 == /\ \A i \in 1..Len(out) : (out[i].t = "pub" /\ out[i].off # 0) => ~Filter
 
 \* C02: recovered = TRUE exactly delivers the stream after the requested offset up to the top seen by the
 \* subscribe (minus filtered ones); recovered = FALSE delivers nothing.
-C02 == ReplyIdx # 0 =>
+C02 == (ReplyIdx # 0 /\ cfg.kind # "cache") =>
          LET r == out[ReplyIdx] IN
          /\ ~r.recovered => r.pubs = <<>>
          /\ r.recovered =>
@@ -283,6 +317,19 @@ C02 == ReplyIdx # 0 =>
               /\ \A o \in (cfg.since.off + 1)..hres.top :
                       (\E j \in 1..Len(r.pubs) : r.pubs[j] = o) \/ Filtered(tags[o])
               /\ (RecLimit > 0 => Len(hres.pubs) <= RecLimit /\ (Len(hres.pubs) = RecLimit => hres.pubs[Len(hres.pubs)].off = hres.top))
+
+\* C03: cache recovery delivers at most the newest visible publication; recovered exactly when the channel's newest
+\* publication is present in history or the client already holds the current position
+C03 == (ReplyIdx # 0 /\ cfg.kind = "cache") =>
+         LET r == out[ReplyIdx]
+             newestPresent == hres.win # <<>> /\ Newest(hres.win) = hres.top
+             holdsCurrent  == cfg.since.off > 0 /\ cfg.since.off = hres.top /\ cfg.since.ep = Ep
+         IN /\ Len(r.pubs) <= 1
+            /\ \A j \in 1..Len(r.pubs) :
+                 /\ ~Filtered(tags[r.pubs[j]])
+                 \* nothing visible that is newer was in history when it was read
+                 /\ r.pubs[j] >= NewestVisible(hres.win)
+            /\ r.recovered <=> (newestPresent \/ holdsCurrent)
 
 \* the position the server keeps equals the last offset it accounted for
 PosConsistent == (sub.st = "live" /\ Positioned /\ Seen # <<>>) => sub.pos >= Seen[Len(Seen)]
